@@ -255,3 +255,18 @@ M("iso_lowest_x_global", "line search keeps its best trial in a module-level var
   ("lbfgsb/linesearch.py", "def max_allowed_steplength(\n", "_BEST = [None, 0.0]\n\n\ndef max_allowed_steplength(\n"))
 M("cp_tie_test", "pinned defect: minimiser test on a partially fixed tie (reverse of the tie-test fix)", ["C08"],
   ("lbfgsb/cauchy.py", "        if delta_t > 0 and delta_t_min < delta_t:\n", "        if delta_t_min < delta_t:\n"))
+
+# --- gradient scaler -----------------------------------------------------------------
+M("sc_f0_scaled_twice", "initial objective value scaled twice", ["C17"],
+  ("lbfgsb/main.py", "    f0 *= sf.scaling_factor\n", "    f0 *= sf.scaling_factor * sf.scaling_factor\n"))
+M("sc_target_on_scaled", "target tested on the scaled value inside the loop", ["C17"],
+  ("lbfgsb/main.py", "            if update_fun_def is None:\n                if is_f0_target_reached(f0 / sf.scaling_factor, _ftarget, istate):",
+   "            if update_fun_def is None:\n                if is_f0_target_reached(f0, _ftarget, istate):"))
+M("sc_scaler_gets_scaled_grad", "scaler invoked twice, the second time with the scaled gradient", ["C17"],
+  ("lbfgsb/main.py", "        sf.scaling_factor = gradient_scaler(x, grad, lb, ub)\n", "        sf.scaling_factor = gradient_scaler(x, grad, lb, ub)\n        gradient_scaler(x, grad * sf.scaling_factor, lb, ub)\n"))
+M("sc_scaler_unclipped_x0", "scaler receives the user's x0 bounds swapped", ["C17"],
+  ("lbfgsb/main.py", "        sf.scaling_factor = gradient_scaler(x, grad, lb, ub)\n", "        sf.scaling_factor = gradient_scaler(x, grad, ub, lb)\n"))
+M("sc_packaged_formula", "packaged scaler uses the 2-norm instead of the max change", ["C17"],
+  ("lbfgsb/utils.py", "    max_change = max(abs(updated_params))\n", "    max_change = np.sqrt(np.sum(updated_params**2))\n"))
+M("sc_grad_not_scaled_first", "first gradient not scaled (only f0)", ["C17"],
+  ("lbfgsb/main.py", "    grad = grad * sf.scaling_factor\n", "    grad = grad * 1.0\n"))
